@@ -171,6 +171,7 @@ structure St where
   partTags : List String := []
   instrTags : List String := []
   widths : List (Nat × Nat) := []                  -- main ↦ largest number of simultaneous sub-spines
+  same : Bool := false                             -- all spines form one part (pre-scanned from the tags)
 
 def startsWith (s : List Char) (p : String) : Bool := p.toList.isPrefixOf s
 
@@ -279,20 +280,31 @@ def subNotes (c : Col) (p : Nat) : List SubTok → Option (List RawNote)
     | some d, some rest => some (noteOf c p t d :: rest)
     | _, _ => none
 
-def dataRow : St → List (Col × Nat) → List (List Char) → List Col → Option (St × List Col)
-  | st, [], [], acc => some (st, acc.reverse)
-  | st, (c, p) :: cs, cell :: cells, acc =>
-    if !c.kern || cell = ['.'] || startsWith cell "!" then dataRow st cs cells (c :: acc)
+/-- tokens of one part on one row are simultaneous: a token starts where the leftmost token of its part on
+    that row starts (in a rhythmically consistent document this is the spine's own cursor) -/
+def groupKey (same : Bool) (c : Col) : Nat := if same then 0 else c.main + 1
+
+def dataRow : St → List (Col × Nat) → List (List Char) → List Col → List (Nat × Rat) → Option (St × List Col)
+  | st, [], [], acc, _ => some (st, acc.reverse)
+  | st, (c, p) :: cs, cell :: cells, acc, anchors =>
+    if !c.kern || cell = ['.'] || startsWith cell "!" then dataRow st cs cells (c :: acc) anchors
     else match parseToken cell with
       | none => none
       | some toks =>
+        let g := groupKey st.same c
+        let c := match lookup g anchors with
+          | some t => { c with cursor := t }
+          | none => c
+        let anchors := match lookup g anchors with
+          | some _ => anchors
+          | none => (g, c.cursor) :: anchors
         let grace := toks.any (·.grace)
         match subNotes c p toks, tokenAdvance toks with
         | some ns, some adv =>
           let adv := if grace then 0 else adv
-          dataRow { st with notes := ns.reverse ++ st.notes } cs cells ({ c with cursor := c.cursor + adv } :: acc)
+          dataRow { st with notes := ns.reverse ++ st.notes } cs cells ({ c with cursor := c.cursor + adv } :: acc) anchors
         | _, _ => none
-  | _, _, _, _ => none
+  | _, _, _, _, _ => none
 
 def step (st : St) (row : List (List Char)) : Option St :=
   match row with
@@ -306,7 +318,7 @@ def step (st : St) (row : List (List Char)) : Option St :=
       if startsWith first "*" then
         (interpRow st cp row [] false).map fun (st', cols) => { st' with cols := cols }
       else if startsWith first "=" then barRow st cp row
-      else (dataRow st cp row []).map fun (st', cols) => { st' with cols := cols }
+      else (dataRow st cp row [] []).map fun (st', cols) => { st' with cols := cols }
 
 def runRows : St → List (List (List Char)) → Option St
   | st, [] => some st
@@ -324,11 +336,27 @@ def isSkippable (row : List (List Char)) : Bool :=
   | [] => true
   | f :: _ => startsWith f "!"
 
+def scanTags (rows : List (List (List Char))) (pfx : String) : List String :=
+  (rows.flatten.filter fun cell => startsWith cell pfx).map String.ofList
+
+def allSame : List String → Bool
+  | [] => true
+  | a :: rest => rest.all (· = a)
+
+/-- all `**kern` spines belong to one part when all `*part…` tags of the document are equal
+    (when there is none: all `*I…` tags) -/
+def samePartOf (rows : List (List (List Char))) : Bool :=
+  let ps := scanTags rows "*part"
+  if ps ≠ [] then allSame ps
+  else
+    let is := scanTags rows "*I"
+    if is ≠ [] then allSame is else false
+
 /-- run the whole document (list of rows of cells); the first non-comment row holds the exclusive interpretations -/
 def run (rows : List (List (List Char))) : Option St :=
   match rows.dropWhile isSkippable with
   | [] => none
-  | hdr :: rest => runRows { cols := initCols hdr 0 } rest
+  | hdr :: rest => runRows { cols := initCols hdr 0, same := samePartOf rows } rest
 
 /-! ## Ties -/
 
@@ -381,15 +409,26 @@ def joinFold : List TNote → List Sounding → List Sounding
     else if n.tOpen then joinFold rest (soundOf n :: opened)
     else soundOf n :: joinFold rest opened
 
-/-- tie flags (tied from a previous note, tied to a following note) of each note of a spine, in order -/
-def tieFlags : List TNote → List Sounding → List (Bool × Bool)
-  | [], _ => []
-  | n :: rest, opened =>
+/-- the tie links (index of the tied-from note, index of the tied-to note) of a spine's notes -/
+def tieLinks : List TNote → Nat → List (Sounding × Nat) → List (Nat × Nat)
+  | [], _, _ => []
+  | n :: rest, i, opened =>
     let opens := n.tOpen || n.tCont
-    match (if n.tCont || n.tClose then takeOpen n opened else none) with
-    | some (_, others) =>
-      (true, opens) :: tieFlags rest (if opens then soundOf n :: others else others)
-    | none => (false, opens) :: tieFlags rest (if opens then soundOf n :: opened else opened)
+    let found : Option ((Sounding × Nat) × List (Sounding × Nat)) :=
+      if n.tCont || n.tClose then
+        match opened.find? (fun o => samePitch o.1 n) with
+        | some o => some (o, opened.filter fun x => x.2 ≠ o.2)
+        | none => none
+      else none
+    match found with
+    | some (o, others) =>
+      (o.2, i) :: tieLinks rest (i + 1) (if opens then (soundOf n, i) :: others else others)
+    | none => tieLinks rest (i + 1) (if opens then (soundOf n, i) :: opened else opened)
+
+/-- tie flags (tied from a previous note, tied to a following note) of each note of a spine, in order -/
+def tieFlags (ns : List TNote) : List (Bool × Bool) :=
+  let links := tieLinks ns 0 []
+  (List.range ns.length).map fun i => (links.any (·.2 = i), links.any (·.1 = i))
 
 /-! ## Assembly into parts -/
 
@@ -413,16 +452,6 @@ structure Part where
   tsigs : List (Rat × Nat × Nat)
   ksigs : List (Rat × Int)
   clefs : List (Rat × Nat × String × Nat × Int)
-
-def allSame : List String → Bool
-  | [] => true
-  | a :: rest => rest.all (· = a)
-
-/-- all `**kern` spines belong to one part when they all carry the same `*part…` (else the same `*I…`) tag -/
-def samePart (st : St) : Bool :=
-  if st.partTags ≠ [] then allSame st.partTags
-  else if st.instrTags ≠ [] then allSame st.instrTags
-  else false
 
 def widthOf (ws : List (Nat × Nat)) (m : Nat) : Nat := (lookup m ws).getD 1
 
@@ -462,6 +491,9 @@ def measuresGo (endT : Rat) : List (Rat × Option Nat) → Nat → List (Nat × 
 
 def inPart {α : Type} (mains : List Nat) (m : Mark α) : Bool := mains.contains m.main
 
+def clefKey (c : Rat × Nat × String × Nat × Int) : List Rat :=
+  [c.1, (c.2.1 : Rat), (((c.2.2.1.toList.head?).map Char.toNat).getD 0 : Nat), (c.2.2.2.1 : Rat), (c.2.2.2.2 : Rat)]
+
 def restNote (voice : Nat) (n : RawNote) : Note :=
   { onset := n.onset, dur := n.dur, kind := 2, step := "", alter := 0, octave := 0,
     voice := voice, staff := n.staff, tp := false, tn := false }
@@ -476,7 +508,7 @@ def colPart (raw : List RawNote) (offs : List (Nat × Nat)) (mp : Nat × Nat) :
   let ns : List RawNote := raw.filter fun (n : RawNote) => n.main = mp.1 && n.pos = mp.2
   let pitched : List RawNote := ns.filter fun (n : RawNote) => n.kind ≠ 2
   let voice : Nat := 1 + (lookup mp.1 offs).getD 0 + mp.2
-  let flags := tieFlags (pitched.map tnoteOf) []
+  let flags := tieFlags (pitched.map tnoteOf)
   let pitchedNotes : List Note := (pitched.zip flags).map (pitchedNote voice)
   let rests : List Note := (ns.filter fun (n : RawNote) => n.kind = 2).map (restNote voice)
   let staffOf : Nat := (ns.head?.map (fun (n : RawNote) => n.staff)).getD 1
@@ -506,7 +538,7 @@ def mkPart (st : St) (mains : List Nat) : Part :=
   { notes := notes.mergeSort (fun a b => lexLe (noteKey a) (noteKey b)),
     joined := joined.mergeSort (fun a b => lexLe (joinedKey a) (joinedKey b)),
     measures := ms, tsigs := ts, ksigs := ks,
-    clefs := cl.mergeSort (fun a b => lexLe [a.1, (a.2.1 : Rat), (a.2.2.2.1 : Rat)] [b.1, (b.2.1 : Rat), (b.2.2.2.1 : Rat)]) }
+    clefs := cl.mergeSort (fun a b => lexLe (clefKey a) (clefKey b)) }
 
 def kernMains (rows : List (List (List Char))) : List Nat :=
   match rows.dropWhile isSkippable with
@@ -515,7 +547,7 @@ def kernMains (rows : List (List (List Char))) : List Nat :=
 
 /-- the parts a document denotes, in partitura's order (last spine first) -/
 def assemble (st : St) (mains : List Nat) : List Part :=
-  if samePart st then [mkPart st mains]
+  if st.same then [mkPart st mains]
   else (mains.map fun m => mkPart st [m]).reverse
 
 def denote (rows : List (List (List Char))) : Option (List Part) :=
